@@ -4,6 +4,8 @@
 // (the python side bisects to the offending case).  FormatProgressStatus calls Fatal() (exit 1) for an
 // unknown placeholder: that is "reports an error", so that component forks per case.
 #include "common.h"
+#include <string.h>
+#include <stdlib.h>
 #include <sys/wait.h>
 #include <unistd.h>
 #include "build.h"
@@ -59,7 +61,10 @@ static int run_statusfmt(int, char**) {
     if (pid == 0) {
       BuildConfig cfg; StatusPrinter sp(cfg);
       std::string f = unhex(l);
-      std::string r = sp.FormatProgressStatus(f.c_str(), 0);
+      // an exact-size heap copy: a read behind the terminating NUL is a heap-buffer-overflow for ASan
+      char* exact = (char*)malloc(f.size() + 1);
+      memcpy(exact, f.c_str(), f.size() + 1);
+      std::string r = sp.FormatProgressStatus(exact, 0);
       printf("OK %s\n", hex(r).c_str());
       fflush(stdout); _exit(0);
     }
